@@ -21,6 +21,7 @@ write_project(dir, files)
     Materialise spec['files'] again.
 
 configure(srcdir, builddir, args=(), env=None, timeout=300) -> result
+    (env=None: os.environ minus MESON_RSP_THRESHOLD/NINJA/CC/CFLAGS/LDFLAGS/DESTDIR; an explicit env is used as given)
     Run `[sys.executable, <common.REPO>/meson.py, 'setup', srcdir, builddir, *args]` with FAKEBIN first on PATH and
     PYTHONPATH=common.REPO.  result = {'rc','ok','out','wall','timeout'}; `ok` means rc == 0 and build.ninja exists.
 
@@ -53,7 +54,11 @@ DEFAULT_FEATURES: T.Dict[str, T.Any] = {
     'aliases': 0.4,
     'max_targets': 9,
     'collision': None,
-    'pipe_names': False,   # names containing `|` (ninja cannot express them; known finding of C04)
+    'unity': 'off',        # the -Dunity value the project will be configured with (single-object extraction needs 'off')
+    'unity_size': 4,       # the -Dunity_size value in use: source counts are biased towards its exact multiples
+    'extraction': 0.45,    # probability that a target consumes extracted objects of an earlier one
+    'pch': 0.15,
+    'pipe_names': False,   # names containing `|` (ninja cannot express them; must be rejected at configure time)
 }
 
 COLLISION_KINDS = [
@@ -161,6 +166,41 @@ class _Gen:
         self.targets.append(kw)
         return kw
 
+    def nsrc(self) -> int:
+        """number of sources of a target: 1..5, and often an exact multiple of the unity size"""
+        rng = self.rng
+        us = int(self.f.get('unity_size') or 4)
+        if rng.random() < 0.4:
+            return min(8, us * rng.choice([1, 1, 2]))
+        return rng.randint(1, 5)
+
+    def objects_kw(self, project, me_kind) -> T.Optional[str]:
+        """`objects:` from an earlier target of the same project (its object names are recomputed by
+        Backend._determine_ext_objs, not taken from the statements that produce them)"""
+        rng = self.rng
+        if rng.random() >= self.f['extraction']:
+            return None
+        cands = [t for t in self.targets if t['project'] == project and t.get('srcs') and
+                 t['kind'] in ('static_library', 'shared_library', 'executable', 'both_libraries', 'library', 'shared_module')]
+        if not cands:
+            return None
+        t = rng.choice(cands)
+        r = rng.random()
+        if r < 0.3 and self.f.get('unity') == 'off' and t['dir'] == self.cur:
+            # single objects (not possible in unity builds); names are relative to the directory of the call
+            pick = rng.sample(t['srcs'], rng.randint(1, len(t['srcs'])))
+            return f"objects: {t['var']}.extract_objects({', '.join(self.q(x) for x in pick)})"
+        rec = rng.choice(['true', 'false'])
+        return f"objects: {t['var']}.extract_all_objects(recursive: {rec})"
+
+    def pch_kw(self, mdir, name) -> T.Optional[str]:
+        if self.rng.random() >= self.f['pch']:
+            return None
+        self.nfile += 1
+        fn = f'pch/p{self.nfile}_pch.h'
+        self.files[os.path.join(mdir, fn)] = '#include <stdio.h>\n'
+        return f'c_pch: {self.q(fn)}'
+
     # ---- target makers; each returns the target dict
     def mk_lib(self, mdir, project, kind=None, name=None):
         rng = self.rng
@@ -168,8 +208,14 @@ class _Gen:
         kind = kind or rng.choice(['static_library', 'shared_library', 'both_libraries', 'library', 'shared_module'])
         name = name or self.name(project)
         v = self.var()
-        srcs = [self.src(mdir) for _ in range(rng.randint(1, 2))]
+        srcs = [self.src(mdir) for _ in range(self.nsrc())]
         kws = []
+        okw = self.objects_kw(project, kind)
+        if okw:
+            kws.append(okw)
+        pkw = self.pch_kw(mdir, name)
+        if pkw:
+            kws.append(pkw)
         libs = [t for t in self.targets if t['kind'] in ('static_library', 'library', 'both_libraries', 'shared_library')
                 and t['project'] == project]
         if libs and rng.random() < 0.5 and kind != 'shared_module':
@@ -196,7 +242,7 @@ class _Gen:
             args += ', ' + ', '.join(kws)
         self.emit(mdir, f'{v} = {kind}({args})')
         return self.add_target(var=v, name=name, kind=kind, dir=mdir, project=project, outputs=None,
-                               bbd=bbd)
+                               bbd=bbd, srcs=srcs)
 
     def pick_generated(self, project) -> str:
         """maybe some generated sources (custom target / generator / configure_file objects) as extra positional args"""
@@ -238,7 +284,7 @@ class _Gen:
         name = name or self.name(project)
         v = self.var()
         srcs = [self.src(mdir, stem='main', body='int main(void) { return 0; }\n')]
-        srcs += [self.src(mdir) for _ in range(rng.randint(0, 2))]
+        srcs += [self.src(mdir) for _ in range(self.nsrc() - 1)]
         positional = [self.q(name)] + [self.q(s) for s in srcs]
         if allow_extra:
             # a source of another directory with the same basename (object name mangling)
@@ -262,9 +308,18 @@ class _Gen:
         if libs and rng.random() < 0.7:
             ch = rng.sample(libs, min(len(libs), rng.randint(1, 2)))
             kws.append('link_with: [' + ', '.join(t['var'] for t in ch) + ']')
+        okw = self.objects_kw(project, 'executable')
+        if okw:
+            kws.append(okw)
+        pkw = self.pch_kw(mdir, name)
+        if pkw:
+            kws.append(pkw)
         slibs = [t for t in self.targets if t['kind'] == 'static_library' and t['project'] == project]
-        if slibs and rng.random() < 0.2:
-            kws.append(f"objects: {rng.choice(slibs)['var']}.extract_all_objects(recursive: false)")
+        if slibs and rng.random() < 0.25:
+            kws.append(f"link_whole: {rng.choice(slibs)['var']}")
+        deps = [t for t in self.targets if t['kind'] == 'dependency' and t['project'] == project]
+        if deps and rng.random() < 0.5:
+            kws.append(f"dependencies: {rng.choice(deps)['var']}")
         if rng.random() < 0.2:
             kws.append('install: true')
         bbd = True
@@ -272,7 +327,8 @@ class _Gen:
             kws.append('build_by_default: false')
             bbd = False
         self.emit(mdir, f"{v} = executable({', '.join(positional + kws)})")
-        return self.add_target(var=v, name=name, kind='executable', dir=mdir, project=project, outputs=None, bbd=bbd)
+        return self.add_target(var=v, name=name, kind='executable', dir=mdir, project=project, outputs=None, bbd=bbd,
+                               srcs=srcs)
 
     def proj_root(self, project: str) -> str:
         return '' if project == '' else os.path.join('subprojects', project)
@@ -292,6 +348,8 @@ class _Gen:
             n = rng.randint(1, 3)
             outputs = []
             stem = rng.choice(['gen', 'out', 'tbl', 'odd name', 'res']) + str(self.nvar)
+            if self.f['pipe_names'] and rng.random() < 0.5:
+                stem = 'o|p' + str(self.nvar)
             exts = rng.sample(['.h', '.c', '.txt', '.dat'], n)
             if rng.random() < 0.5 and '.h' not in exts:
                 exts[0] = '.h'
@@ -354,6 +412,23 @@ class _Gen:
             self.emit(mdir, f"{v} = configure_file(output: {self.q(out)}, command: [gen, '@OUTPUT@'])")
         return self.add_target(var=v, name=out, kind='configure_file', dir=mdir, project=project, outputs=[out], bbd=None)
 
+    def mk_dep(self, mdir, project):
+        """declare_dependency carrying a library and generated sources (headers reach consumers as order-only inputs)"""
+        rng = self.rng
+        libs = [t for t in self.targets if t['kind'] in ('static_library', 'shared_library', 'both_libraries', 'library')
+                and t['project'] == project]
+        parts = []
+        if libs and rng.random() < 0.7:
+            parts.append(f"link_with: {rng.choice(libs)['var']}")
+        extra = self.pick_generated(project)
+        if extra:
+            parts.append(f"sources: [{self.fmt_extra(mdir, extra)}]")
+        if not parts:
+            return
+        v = self.var('d')
+        self.emit(mdir, f"{v} = declare_dependency({', '.join(parts)})")
+        self.add_target(var=v, name=v, kind='dependency', dir=mdir, project=project, outputs=None, bbd=None)
+
     def mk_test(self, mdir, project):
         rng = self.rng
         exes = [t for t in self.targets if t['kind'] == 'executable' and t['project'] == project]
@@ -411,8 +486,10 @@ class _Gen:
                 self.mk_ct(mdir, project)
             elif r < 0.82 and rng.random() < self.f['generators'] + 0.3:
                 self.mk_generator(mdir, project)
-            elif r < 0.9 and rng.random() < self.f['configure_file'] + 0.3:
+            elif r < 0.88 and rng.random() < self.f['configure_file'] + 0.3:
                 self.mk_configure_file(mdir, project)
+            elif r < 0.92:
+                self.mk_dep(mdir, project)
             elif r < 0.96 and rng.random() < self.f['tests']:
                 self.mk_test(mdir, project)
             elif rng.random() < self.f['aliases']:
@@ -574,8 +651,9 @@ def configure(srcdir: str, builddir: str, args: T.Sequence[str] = (), env: T.Opt
     e['PYTHONPATH'] = common.REPO
     e['PYTHONDONTWRITEBYTECODE'] = '1'
     e.setdefault('PYTHONHASHSEED', '0')
-    for k in ('MESON_RSP_THRESHOLD', 'NINJA', 'CC', 'CFLAGS', 'LDFLAGS', 'DESTDIR'):
-        e.pop(k, None)
+    if env is None:
+        for k in ('MESON_RSP_THRESHOLD', 'NINJA', 'CC', 'CFLAGS', 'LDFLAGS', 'DESTDIR'):
+            e.pop(k, None)
     cmd = [sys.executable, os.path.join(common.REPO, 'meson.py'), 'setup', srcdir, builddir] + list(args)
     t0 = time.time()
     try:
